@@ -30,19 +30,20 @@ Proof. exact accepted_implies_first_pass_valid. Qed.
 Print Assumptions C02_accepted_implies_first_pass_valid.
 
 (* The regenerated Swagger 2.0 schema - recursive definitions (schema -> properties -> schema), patternProperties ("^x-", "^/"),
-   oneOf, not, formats, additionalProperties: false - lies inside the class on which the pipeline's verdict is proved to be the
-   draft-4 verdict (C01_recursive_agreement_for_the_binary64_model, data mode without null and without arrays: with arrays in
-   the document the format-next-to-type shortcut of type.go:200 leaves the class, a recorded C01 finding), with rank 3.
-   Re-checked on every run against the schema the code embeds.  This is the pre-check-free pipeline; the first pass of spec
-   validation adds the two Swagger pre-checks, which only add errors (first pass valid => draft-4 valid is then the soundness
-   half, decided per document by the L0 oracle). *)
+   oneOf, not, formats, additionalProperties: false - satisfies the schema part of the class on which the pipeline's verdict is
+   proved to be the draft-4 verdict (C01_recursive_agreement_for_the_binary64_model): a rank exists (3) and every schema below
+   the root and the definitions passes the local test, in the data mode without null and with arrays.  What remains is asked
+   of the document: JSON without null and without members named "$schema", "id" or "headers", and strings / arrays only where
+   the type list next to a format accepts them ([fits_b]).  Re-checked on every run against the schema the code embeds.  This
+   is the pre-check-free pipeline; the first pass of spec validation adds the two Swagger pre-checks, which only add errors
+   (first pass valid => draft-4 valid is then the soundness half, decided per document by the L0 oracle). *)
 Definition sw_oracles : option oracles := match Gen.Swagger20.swagger20_case with L (o :: _) => get_oracles o | _ => None end.
 Definition sw_in_fragment : bool :=
   match sw_oracles with
   | Some orc =>
       let K := 48%nat in
       let R := fold_right Nat.max O (map (max_rank sw_env K 60) (roots sw_env sw_schema)) in
-      cleang_b f_finite false false orc sw_env K R 60 sw_schema
+      guarded_b sw_env K R 60 sw_schema && forallb (walk_b (lc_b f_finite false true orc) 60) (roots sw_env sw_schema)
   | None => false
   end.
 Theorem C02_swagger20_schema_is_inside_the_agreement_fragment : sw_in_fragment = true.
